@@ -200,10 +200,15 @@ func runGraphs(c *Ctx, prop string, width, depth int) error {
 			if prop == "C04" || i%2 == 1 { // group members named by the path of the element they belong to
 				src, exps, cell = wgsCase(c.Rng)
 			}
+			ord := "false"
+			if i%3 == 2 { // group objects followed by fields with ordinary rules (no Go map inside: the order is fixed)
+				src, exps, cell = wgoCase(c.Rng)
+				ord = "true"
+			}
 			call := &walkCall{Entry: "struct", Src: src}
 			spec := "SNil"
 			if len(exps) > 0 {
-				spec = "SExpect false " + galExps(exps)
+				spec = "SExpect " + ord + " " + galExps(exps)
 			}
 			term, desc := call.caseTerm([]string{spec, "SNoPanic"})
 			desc["expected_groups"] = len(exps)
